@@ -112,6 +112,7 @@ def run(repo, rep, tier):
     if r2.sites < 5:
         raise AnalysisError('expected 5 guarded conversions in _utils, '
                             'found %d' % r2.sites)
+    _notation_rule(repo, rep)
     # ---- R3 ---------------------------------------------------------------
     mod = repo.module(VM)
     for f in mod.all_funcs():
@@ -710,3 +711,106 @@ def _r7_sentinels(repo, rep, cls):
     if r7.sites == 0 and not r7.findings:
         raise AnalysisError('no test of the sentinel attribute(s) %s found'
                             % sorted(sent))
+
+
+def _notation_rule(repo, rep):
+    """C20.R8: each integer notation accepted by _integerValue_to_int covers
+    its whole DSP0004 form: (a) an optional '+' or '-' sign for every
+    notation (the four patterns agree), (b) every digit of the radix that
+    the branch converts with is accepted in a non-leading position.  Decided
+    on the patterns themselves (regex AST samples + the regex engine), and
+    on the radix written in the int() call of the branch."""
+    import re as _re
+    from ..guards import regex_const
+    from .. import rx
+    r8 = rep.rule('C20.R8', 'integer notation patterns admit both signs and '
+                  'every digit of their radix')
+    iv = repo.func(UTL, '_integerValue_to_int')
+    r8.functions.add(iv.fq)
+    branches = []     # (pattern name, pattern, flags, base)
+    for n in ast.walk(iv.node):
+        if not isinstance(n, ast.If):
+            continue
+        pname = None
+        for c in ast.walk(n.test):
+            if isinstance(c, ast.Call) and isinstance(c.func, ast.Attribute) \
+                    and c.func.attr in ('match', 'fullmatch') and \
+                    isinstance(c.func.value, ast.Name):
+                pname = c.func.value.id
+            elif isinstance(c, ast.Name):
+                # `m = P.match(x)` before `if m:`
+                for a in walk_no_nested(iv.node):
+                    if isinstance(a, ast.Assign) and \
+                            norm(a.targets[0]) == c.id and \
+                            isinstance(a.value, ast.Call) and \
+                            isinstance(a.value.func, ast.Attribute) and \
+                            a.value.func.attr in ('match', 'fullmatch') and \
+                            isinstance(a.value.func.value, ast.Name):
+                        pname = pname or a.value.func.value.id
+        if pname is None:
+            continue
+        base = None
+        for c in [x for b in n.body for x in ast.walk(b)]:
+            if isinstance(c, ast.Call) and dotted(c.func) == 'int':
+                base = 10
+                if len(c.args) > 1 and isinstance(c.args[1], ast.Constant):
+                    base = c.args[1].value
+        rc = regex_const(repo, iv, ast.Name(id=pname, ctx=ast.Load()))
+        if rc is None or base is None:
+            raise AnalysisError('_integerValue_to_int: branch for %s not '
+                                'resolvable' % pname)
+        branches.append((pname, rc[0], rc[1], base))
+    if len(branches) < 4:
+        raise AnalysisError('_integerValue_to_int: %d notation branches'
+                            % len(branches))
+    for pname, pat, flags, base in branches:
+        cre = _re.compile(pat, flags)
+        digs = rx.digits_for_base(base)
+        if not flags & _re.IGNORECASE:
+            digs = {d for d in digs if not d.isalpha() or d.islower()} \
+                if base > 10 else digs
+        acc = [s for s in rx.samples(rx.parse(pat, flags)) if cre.match(s)]
+        unsigned = [s for s in acc if s and s[0] not in '+-']
+        if not unsigned:
+            raise AnalysisError('%s: no unsigned sample' % pname)
+        # (a) signs
+        r8.sites += 1
+        missing = [sg for sg in '+-'
+                   if not all(cre.match(sg + s) for s in unsigned[:20])]
+        r8.ob(not missing, '%s:sign' % pname,
+              {'pattern': pat, 'base': base})
+        if missing:
+            rep.finding(r8, iv.qualname, '%s = %s' % (pname, pat), 'sign',
+                        UTL, iv.node.lineno,
+                        'the %s notation (radix %d) does not accept the '
+                        'sign %s although DSP0004 integerValue allows '
+                        '[+-] for every notation and the sibling patterns '
+                        'do: e.g. %r is rejected, so a ValueMap entry or '
+                        'key value written that way is an "invalid '
+                        'integer"' % (pname, base, '/'.join(missing),
+                                      missing[0] + unsigned[0]))
+        # (b) digit alphabet in a non-leading position
+        r8.sites += 1
+        cand = None
+        for s in sorted(unsigned, key=len):
+            idx = [i for i, ch in enumerate(s) if ch in digs]
+            # skip the digits of a radix prefix (0x / leading 0)
+            if len(idx) >= 2 and not (base == 16 and
+                                      s[idx[-1] - 1:idx[-1]] in 'xX'):
+                cand = (s, idx[-1])
+                break
+        if cand is None:
+            raise AnalysisError('%s: no sample with two digits' % pname)
+        s, i = cand
+        lost = sorted(d for d in digs
+                      if not cre.match(s[:i] + d + s[i + 1:]))
+        r8.ob(not lost, '%s:digits' % pname, {'sample': s, 'base': base})
+        if lost:
+            rep.finding(r8, iv.qualname, '%s = %s' % (pname, pat),
+                        'digit-alphabet', UTL, iv.node.lineno,
+                        'the %s notation is converted with radix %d but its '
+                        'pattern does not accept the digit(s) %s after the '
+                        'first position (e.g. %r is rejected): a valid '
+                        'DSP0004 value is reported as an invalid integer'
+                        % (pname, base, ','.join(lost),
+                           s[:i] + lost[0] + s[i + 1:]))
